@@ -436,9 +436,15 @@ fn parse_backend(input: ParseStream) -> Result<Backend> {
 
     while !content.is_empty() {
         if let Some(new_prologue) = parse_block::<kw::prologue>(&content, kw::prologue)? {
-            prologue = Some(new_prologue);
+            prologue = Some(match prologue {
+                Some(prologue) => format!("{prologue}\n{new_prologue}"),
+                None => new_prologue,
+            });
         } else if let Some(new_epilogue) = parse_block::<kw::epilogue>(&content, kw::epilogue)? {
-            epilogue = Some(new_epilogue);
+            epilogue = Some(match epilogue {
+                Some(epilogue) => format!("{epilogue}\n{new_epilogue}"),
+                None => new_epilogue,
+            });
         } else {
             return Err(content.error("expected prologue or epilogue"));
         }
